@@ -341,6 +341,9 @@ func (r *cfgRun) checkNewParser(f Fields) (accepted lz.ParserConfig) {
 		return nil
 	}
 	r.st.Add("configs_accepted", 1)
+	if r.prop == "C16" {
+		return want // what the parser reports is C20's clause (checked there for every accepted class)
+	}
 	if got := p.ParserConfig(); !reflect.DeepEqual(got, want) {
 		r.fail("ParserConfig|not-defaults-completed", "ParserConfig() of a parser made from %s is %+v, the defaults-completed configuration is %+v", f, got, want)
 	}
